@@ -24,6 +24,10 @@ def _real_batch(batch):
 
 def real_deps(ctx: Ctx, items):
     """items: [(text, full_js, context_key)] -> list of sorted deps or 'EXC:Name' (hang = 'EXC:timeout')"""
+    from sfv.rt.cwldiff import enable_bytecode_cache
+
+    enable_bytecode_cache()
+    import streamflow.cwl.utils  # noqa: F401  (imported once here, inherited by the forked workers)
     size = 20
     batches = [items[i:i + size] for i in range(0, len(items), size)]
     res = [None] * len(batches)
@@ -88,13 +92,14 @@ class C31(Property):
     quick_budget_s = 400
     thorough_budget_s = 1800
     min_nontrivial = 50
-    rule = ("JavaScript fragments are compositions of 19 handled and 12 defect access patterns (dot / quoted-bracket / computed "
+    rule = ("JavaScript fragments are compositions of 20 handled and 12 defect access patterns (dot / quoted-bracket / computed "
             "access, aliasing by assignment / var initialiser / parenthesis / conditional / argument / return, nested function "
             "declarations and expressions, parameter shadowing, kills, conditionals, string literals mentioning inputs, reserved "
             "words), pretty-printed with random whitespace and quote style; every pattern alone first (corpus), then random "
             "compositions of 1..4 patterns. Each fragment runs through the REAL resolve_dependencies(full_js=True), the Lean "
             "listener model, node v20 with `inputs` behind a recording Proxy, and the Lean evaluator. Parameter references: random "
-            "$(sym.seg...) with dot / quoted / numeric segments, both full_js settings, context keys inputs and self. "
+            "$(sym.seg...) with dot / quoted / numeric segments, both full_js settings, context keys inputs and self. Interpolated strings: 2-3 "
+            "placeholders per string mixing parameter references and JavaScript in both orders (one shared resolver; deps = union). "
             "Non-trivial = distinct expression text.")
     trusted_base = [
         "modelled, not verified: the ANTLR ECMAScript grammar (the Lean listener works on the syntax tree of the generated "
@@ -141,7 +146,7 @@ class C31(Property):
         ]
         for kind, body, pats, order in hand:
             progs.append(("corpus", {"kind": kind, "body": body, "patterns": pats, "order": order}))
-        n = {"quick": 260, "thorough": 3000}[ctx.tier]
+        n = {"quick": 150, "thorough": 3000}[ctx.tier]
         if ctx.mode == "search":
             n *= 2
         for i in range(n):
@@ -161,7 +166,7 @@ class C31(Property):
             routed.append(p["kind"] == "paren" and param_re.match(t[1:]) is not None)
         # parameter references
         prefs = []
-        npref = {"quick": 200, "thorough": 2000}[ctx.tier]
+        npref = {"quick": 120, "thorough": 2000}[ctx.tier]
         fixed = ["$(inputs.a.b)", "$(inputs['a'])", '$(inputs["a b"])', "$(inputs.a.length)", "$(inputs.length)", "$(inputs)",
                  "$(self.a)", "$(inputs[3])", "$(inputs.if)", "$(runtime.cores)"]
         fixed_meta = [("inputs", [("d", "a"), ("d", "b")]), ("inputs", [("k", "a")]), ("inputs", [("k", "a b")]),
@@ -236,6 +241,8 @@ class C31(Property):
             if nd["ok"] and (isinstance(r, str) or [k for k in nd["reads"] if k not in r]):
                 ctx.fail(key, f"{t!r}: node reads {nd['reads']}, resolve_dependencies gives {r}",
                          {"op": "extra", "text": t, "key": key})
+        # ---- interpolated strings: several placeholders share one resolver ----
+        self._interpolated(ctx, param_re)
         # ---- parameter references ----
         j = 0
         for i, (t, sym, segs) in enumerate(prefs):
@@ -260,6 +267,39 @@ class C31(Property):
         if len(ctx.nontrivial) and n_handled < 0.2 * len(progs):
             ctx.notes.append("fewer than 20% of the generated fragments are inside the proved fragment")
 
+    def _interpolated(self, ctx: Ctx, param_re) -> None:
+        rng = ctx.rng
+        items = [J.gen_interpolated(rng, False, shape) for shape in (["ref", "js"], ["js", "ref"], ["js", "js"], ["ref", "js", "ref"],
+                                                                     ["js", "ref", "js"], ["ref", "ref", "js"])]
+        n = {"quick": 50, "thorough": 600}[ctx.tier] * (2 if ctx.mode == "search" else 1)
+        items += [J.gen_interpolated(rng, i % 4 == 0) for i in range(n)]
+        real = real_deps(ctx, [(it["text"], True, None) for it in items])
+        codes, spans = [], []
+        for it in items:
+            cs = J.interp_codes(it["parts"])
+            spans.append((len(codes), len(codes) + len(cs)))
+            codes += cs
+        node = J.node_reads(codes, timeout=300)
+        model = ctx.lean("Drivers/C31.lean", [J.interp_line("inputs", it["parts"]) for it in items], timeout=900)
+        for it, r, (a, b), ml in zip(items, real, spans, model):
+            mlist, mreads, handled = parse_model(ml)
+            nds = node[a:b]
+            ok = all(nd["ok"] for nd in nds)
+            reads = sorted({k for nd in nds for k in nd["reads"]})
+            routed = any(p[0] == "js" and p[1]["kind"] == "paren" and param_re.match(J.expression_text("paren", p[1]["body"])[1:])
+                         for p in it["parts"])
+            ctx.case({"string": it["text"], "real": r, "node": reads, "node_ok": ok, "model": mlist, "handled": handled},
+                     ("interp", it["text"]), "interpolated:" + "+".join(p[0] for p in it["parts"]))
+            case = {"op": "interp", "text": it["text"], "codes": J.interp_codes(it["parts"]), "patterns": it["patterns"], "order": it["order"]}
+            if not routed and r != mlist:
+                ctx.disagree("interpolated-string model vs resolve_dependencies", f"{it['text']!r}: code {r}, Lean model {mlist}", case)
+            if ok:
+                # (an all-digit key on `inputs` is not a field read: the model's parameter-reference walk does not record it)
+                if not routed and (mreads is None or [k for k in reads if not k.isdigit()] != [k for k in mreads if not k.isdigit()]):
+                    ctx.disagree("interpolated-string reads model vs node", f"{it['text']!r}: node {reads}, Lean {mreads}", case)
+                for key, detail in classify(it, r, reads):
+                    ctx.fail(("handled-fragment:" if handled else "") + key, f"{it['text']!r}: {detail}", case)
+
     def replay(self, ctx: Ctx, data) -> None:
         from streamflow.cwl.utils import resolve_dependencies
 
@@ -268,6 +308,18 @@ class C31(Property):
         if not t:
             return super().replay(ctx, data)
         print("expression:", t)
+        if r.get("op") == "interp":
+            try:
+                real = sorted(resolve_dependencies(t, full_js=True))
+            except BaseException as e:  # noqa: BLE001
+                real = "EXC:" + type(e).__name__
+            nds = J.node_reads(r["codes"])
+            reads = sorted({k for nd in nds for k in nd["reads"]})
+            print("real resolve_dependencies:", real, " node reads per placeholder:", [nd["reads"] for nd in nds])
+            if all(nd["ok"] for nd in nds):
+                for key, detail in classify({"patterns": [tuple(p) for p in r["patterns"]], "order": r["order"]}, real, reads):
+                    ctx.fail(key, detail, r)
+            return
         if r.get("op") == "extra":
             try:
                 real = sorted(resolve_dependencies(t, full_js=True))
